@@ -2192,3 +2192,97 @@ func ruleFlagGuardedValue(c *Ctx, pkgs ...string) {
 	}
 	c.Floor("cursor/validity-flag pairs", npairs, 1)
 }
+
+// ---------------------------------------------------------------------------
+// conflict-stub-refreshed (C07): for every Conflicts attribute of a stored transaction dao.StoreAsTransaction writes a
+// stub under the conflicting hash (the *latest* height at which somebody conflicted with it) and one record per
+// signer. HasTransaction trusts the stub: when its height is no longer traceable it answers "no conflict" without
+// looking at the signers. The stub therefore has to be rewritten in every iteration that writes signer records:
+// within the loop over the attributes, every path from the top of the body to a per-signer Put passes the stub's Put.
+//
+// witness-budget-siblings (C07): the gas a transaction may spend on witness verification is what is left of its
+// network fee after the size part and the attribute fees. The quantity is computed in two places - verifyAndPoolTx
+// (admission) and verifyTxWitnesses' own branch (re-verification of pooled transactions) - and both must subtract the
+// same things, or a pooled transaction survives a re-check with a budget that admission and in-block verification
+// would not give it.
+func ruleConflictStubAndBudget(c *Ctx) {
+	if fd := c.P.Func("pkg/core/dao", "Simple", "StoreAsTransaction"); fd == nil {
+		c.Lost("conflict-stub-refreshed.anchor", "dao.(*Simple).StoreAsTransaction not found")
+	} else {
+		f := c.P.NewFuncCFG(fd)
+		info := fd.Pkg.TypesInfo
+		var outer, inner *ast.RangeStmt
+		ast.Inspect(fd.Decl.Body, func(x ast.Node) bool {
+			rs, ok := x.(*ast.RangeStmt)
+			if !ok {
+				return true
+			}
+			m := f.DirectMentions(rs.X)
+			if outer == nil && (m["pkg/core/transaction.(*Transaction).GetAttributes"] || m["local<-pkg/core/transaction.(*Transaction).GetAttributes"]) {
+				outer = rs
+			} else if outer != nil && containsNode(outer, rs) && m["pkg/core/transaction#Signers"] {
+				inner = rs
+			}
+			return true
+		})
+		if outer == nil || inner == nil {
+			c.Lost("conflict-stub-refreshed.loops", "the loops over Conflicts attributes / signers were not found in StoreAsTransaction")
+		} else {
+			var stub, signer []site
+			for _, st := range f.CallSites("pkg/core/storage.(*MemCachedStore).Put", "pkg/core/storage.(Store).Put") {
+				if !containsNode(outer.Body, st.call) {
+					continue
+				}
+				if containsNode(inner, st.call) {
+					signer = append(signer, st)
+				} else {
+					stub = append(stub, st)
+				}
+			}
+			_ = info
+			if len(stub) == 0 || len(signer) == 0 {
+				c.Fail("conflict-stub-refreshed.StoreAsTransaction", c.P.Pos(outer.Pos()), fmt.Sprintf("StoreAsTransaction: %d stub writes and %d per-signer writes inside the loop over Conflicts attributes: a conflict record needs both", len(stub), len(signer)))
+			} else if ok, path := f.mustBefore(f.regionEntries(outer.Body), signer, stub, nil); ok {
+				c.OK("conflict-stub-refreshed.StoreAsTransaction", c.P.Pos(stub[0].call.Pos()), "every iteration that writes signer records rewrites the stub first")
+			} else {
+				c.Fail("conflict-stub-refreshed.StoreAsTransaction", c.P.Pos(signer[0].call.Pos()), "dao.StoreAsTransaction can write the per-signer conflict records of an attribute without rewriting the stub under the conflicting hash: the stub keeps the height of the first conflict, HasTransaction takes it for untraceable later on and answers 'no conflict' although the victim's own signer conflicted with it recently", path...)
+			}
+		}
+	}
+	// witness budget siblings
+	want := []string{fldTxNetFee, symTxSize, symBC + "FeePerByte", symBC + "CalculateAttributesFee"}
+	n := 0
+	for _, name := range []string{"verifyTxWitnesses"} {
+		fd := c.P.Func("pkg/core", "Blockchain", name)
+		if fd == nil {
+			c.Lost("witness-budget-siblings."+name, "function not found")
+			continue
+		}
+		f := c.P.NewFuncCFG(fd)
+		ast.Inspect(fd.Decl.Body, func(x ast.Node) bool {
+			as, ok := x.(*ast.AssignStmt)
+			if !ok || len(as.Rhs) != 1 {
+				return true
+			}
+			m := f.DirectMentions(as.Rhs[0])
+			if !m[fldTxNetFee] {
+				return true
+			}
+			n++
+			key := fmt.Sprintf("witness-budget-siblings.%s#%d", name, n)
+			var missing []string
+			for _, w := range want {
+				if !m[w] {
+					missing = append(missing, shortSym(w))
+				}
+			}
+			if len(missing) == 0 {
+				c.OK(key, c.P.Pos(as.Pos()), "the re-verification budget subtracts the size part and the attribute fees, as admission does")
+			} else {
+				c.Fail(key, c.P.Pos(as.Pos()), fmt.Sprintf("%s computes the witness verification budget from the network fee without %s: verifyAndPoolTx subtracts it at admission, so a pooled transaction is re-verified with a larger budget than a block verifier gives it", FuncKey(fd.Obj), strings.Join(missing, ", ")))
+			}
+			return true
+		})
+	}
+	c.Floor("witness budget computations outside admission", n, 1)
+}
